@@ -43,6 +43,8 @@ func C04(c *core.Ctx) {
 	c04CalcWritesNormaliserInputs(c)
 	c04OwnCountryBlanked(c)
 	c04RequiresDepth(c)
+	c04FreshPayload(c)
+	c04DefaultsBeforeNormalisers(c)
 	c04ScenarioNotes(c)
 	c04ReadOnly(c)
 	_ = p
